@@ -4,6 +4,37 @@ namespace Frame
 
 variable {α : Type}
 
+theorem pyBound_nonneg (n a : Nat) : pyBound n (a : Int) = min a n := by
+  unfold pyBound
+  have : ¬ ((a : Int) < 0) := by omega
+  simp [this]
+
+theorem pySliceFrom_nonneg (rows : List α) (a : Nat) : pySliceFrom rows (a : Int) = rows.drop a := by
+  unfold pySliceFrom
+  rw [pyBound_nonneg]
+  by_cases h : a ≤ rows.length
+  · rw [Nat.min_eq_left h]
+  · have h' : rows.length ≤ a := by omega
+    rw [Nat.min_eq_right h', List.drop_eq_nil_iff.mpr (Nat.le_refl _), List.drop_eq_nil_iff.mpr h']
+
+/-- Python `rows[a : a + l]` for `a, l ≥ 0` is `(rows.drop a).take l`. -/
+theorem pySlice_nonneg (rows : List α) (a l : Nat) :
+    pySlice rows (a : Int) ((a : Int) + (l : Int)) = (rows.drop a).take l := by
+  unfold pySlice
+  have e : ((a : Int) + (l : Int)) = ((a + l : Nat) : Int) := by omega
+  rw [e, pyBound_nonneg, pyBound_nonneg]
+  by_cases h : a ≤ rows.length
+  · rw [Nat.min_eq_left h]
+    by_cases h2 : a + l ≤ rows.length
+    · rw [Nat.min_eq_left h2]
+      congr 1; omega
+    · have h2' : rows.length ≤ a + l := by omega
+      rw [Nat.min_eq_right h2']
+      rw [List.take_of_length_le (by simp), List.take_of_length_le (by simp; omega)]
+  · have h' : rows.length ≤ a := by omega
+    rw [Nat.min_eq_right h', List.drop_eq_nil_iff.mpr (Nat.le_refl _), List.drop_eq_nil_iff.mpr h']
+    simp
+
 theorem pickFrom_congr (s : Nat) (f g : Nat → Bool) (rows : List α)
     (h : ∀ i, s ≤ i → f i = g i) : pickFrom s f rows = pickFrom s g rows := by
   induction rows generalizing s with
